@@ -113,7 +113,7 @@ func c07GenEscape(r *Rng, atEnd bool) []byte {
 			b = append(b, "0123456789abcdefABCDEF"[r.Intn(22)])
 		}
 		if atEnd || r.Bool() {
-			b = append(b, " \t\n\f"[r.Intn(4)])
+			b = append(b, []string{" ", "\t", "\n", "\f", "\r\n"}[r.Intn(5)]...) // CR LF is one whitespace
 		} else {
 			b = append(b, 'g'+byte(r.Intn(10))) // a non-hex identifier character ends the escape
 		}
@@ -891,7 +891,7 @@ func c07EscapeCases(r *Rng) []c07Expect {
 				tail []byte
 				eof  bool
 			}
-			fols := []fol{{[]byte("g"), false}, {[]byte(" "), false}, {[]byte("\t"), false}, {[]byte("\n"), false}, {[]byte("\f"), false}, {[]byte("\r"), false}, {nil, true}}
+			fols := []fol{{[]byte("g"), false}, {[]byte(" "), false}, {[]byte("\t"), false}, {[]byte("\n"), false}, {[]byte("\f"), false}, {[]byte("\r"), false}, {[]byte("\r\n"), false}, {nil, true}}
 			if k == 6 {
 				fols = append(fols, fol{[]byte("1"), false}, fol{[]byte("B"), false}, fol{[]byte("a"), false})
 			}
